@@ -138,6 +138,33 @@ func (cn *CoreNet) SyncStep(a, b *CNode, limit int, full bool) (int, error) {
 	return cn.deliver(a, b.num, b.part.ID, diff, wire, full)
 }
 
+// SyncUpTo: a receives from b the diff against a's known map, cut after the event
+// with the given id ("" = an empty response; an id that is not in the diff = the
+// whole diff).
+func (cn *CoreNet) SyncUpTo(a, b *CNode, lastID string) (int, error) {
+	known := a.core.KnownEvents()
+	diff, err := b.core.EventDiff(known)
+	if err != nil {
+		cn.w.Emit(a.num, "SyncFail", map[string]interface{}{"from": b.num, "why": "diff"}, nil)
+		return 0, err
+	}
+	if lastID == "" {
+		diff = diff[:0]
+	} else {
+		for k, ev := range diff {
+			if inf, ok := cn.w.events[ev.Hex()]; ok && inf.ID == lastID {
+				diff = diff[:k+1]
+				break
+			}
+		}
+	}
+	wire, err := b.core.ToWire(diff)
+	if err != nil {
+		return 0, err
+	}
+	return cn.deliver(a, b.num, b.part.ID, diff, wire, false)
+}
+
 func (cn *CoreNet) deliver(a *CNode, fromNum int, fromID uint32, diff []*hg.Event, wire []hg.WireEvent, full bool) (int, error) {
 	sent := []string{}
 	for _, ev := range diff {
